@@ -69,7 +69,8 @@ PROPS = {
     "C08": {
         "properties": [
             "C08",
-            "C08_v1"
+            "C08_v1",
+            "C08_recovery"
         ],
         "domains": [
             {
@@ -85,17 +86,27 @@ PROPS = {
                 "n_quick": 2,
                 "n_thorough": 24,
                 "model": True
+            },
+            {
+                "name": "c08tx",
+                "run_vo": "Model/RunKeystoreTx.vo",
+                "n_quick": 60,
+                "n_thorough": 1500,
+                "model": True
             }
         ],
         "trusted": [
             "v1: key file names are numbers (kind + 8*client), file content is (ordinal of the key material, all bytes present), directories are not represented: abstraction done by harness/vhv1/rig.go (Abstract/classify) from the bytes in the in-memory storage; the ordinal of what a reader returns is looked up from the plaintext of every content handed to WriteFile",
             "v1: fault-injecting wrapper vhv1.FaultFS around vh.MemFS (in-memory filesystem.Storage; TempFile names '<pattern><digits>' as ioutil.TempFile and the Redis storage do); FileStorage/Redis behaviour under real crashes is the stated hypothesis, not exercised",
             "file names are structured values and a key ring file is (signature validity bit, [(seqnum, state, key ordinal)], current): ASN.1/signature bytes, path strings (C07) and key encryption (C06) are abstracted by the harness (vh/ksw.go KswAbstract)",
-            "fault-injecting wrapper vh.KswBackend around the real backend.InMemory; DirectoryBackend/flock/fsync behaviour is the stated hypothesis, not exercised"
+            "fault-injecting wrapper vh.KswBackend around the real backend.InMemory; DirectoryBackend/flock/fsync behaviour is the stated hypothesis, not exercised",
+            "c08tx: fault-injecting wrapper x08tx.Backend (several faults per operation, torn Put cut at 0 / 1 / half / all-but-one bytes) around the real backend.InMemory and, for every third history, around the real DirectoryBackend in a temporary directory (every crash and every TReopen runs the real CreateDirectoryBackend); faults are injected at Backend-call granularity: the file-system calls INSIDE DirectoryBackend.Put/RenameNX/CreateDirectoryBackend cannot be interrupted from outside, their intermediate states (root without version file, empty/partial/complete/foreign version file, leftover version.new*, missing .lock) are BUILT by the harness with the same os calls and the real open is run on them",
+            "c08tx: key pair rings (client/<id>/storage): the ordinal of a pair is read from the decrypted private half and checked against the public half (hook VerifDecryptPrivateKey); import containers are produced by the real ExportKeyRings of a separate fault-free keystore, the order in which ImportKeyRings walks the container is taken from a fault-free import into a scratch keystore; imported rings contain no destroyed keys (copyKey refuses keys without data)"
         ],
         "assumptions": [
             "each back-end call is atomic; Rename is atomic and replaces its target; a completed Put (fsync) is durable; a torn write can only leave a strict prefix in the NEW file being created",
             "a key ring file holding a strict prefix of a signed ring does not verify (validity bit False)",
+            "C08_recovery: histories are sequential (one process at a time; concurrency is C17); os.Rename of the version file is atomic, a cut WriteString leaves a strict prefix of the version string, a version file is 'foreign' iff it is neither the version string nor a strict prefix of it; imported rings are well formed (they come from ExportKeyRings of a well-formed keystore)",
             "v1: every filesystem.Storage call is atomic except WriteFile and Copy, which can leave a strict prefix in the file they create (TempFile can leave its empty file); Link is an atomic hard link or unsupported; Rename is atomic and replaces its target; a key file holding a strict prefix does not decrypt; one fault per operation; the clock gives a new history name and TempFile an unused name (the theorems hold for every choice, the harness only runs fresh ones)"
         ]
     },
